@@ -22,12 +22,18 @@ namespace emu {
     std::mutex m;
     std::condition_variable cv;
     int n = 0, turn = 0;
-    std::vector<int> st;                 // 0 to run in this phase, 1 waiting at a barrier, 2 finished
+    long blocksLeft = 0;                 // blocks still to run after the current one
+    std::vector<int> st;                 // 0 to run in this phase, 1 waiting at a barrier, 2 finished the block
     void advance(int t) {
       for (int u = t + 1; u < n; ++u) if (st[u] == 0) { turn = u; return; }
       bool anyb = false, anyd = false;
       for (int u = 0; u < n; ++u) { anyb |= (st[u] == 1); anyd |= (st[u] == 2); }
-      if (!anyb) { turn = -1; return; }
+      if (!anyb) {
+        // the block is finished: start the next one with the same threads, or stop
+        if (blocksLeft > 0) { --blocksLeft; for (int u = 0; u < n; ++u) st[u] = 0; turn = 0; }
+        else turn = -1;
+        return;
+      }
       if (anyd) ++divergentBarriers;
       for (int u = 0; u < n; ++u) if (st[u] == 1) st[u] = 0;
       for (int u = 0; u < n; ++u) if (st[u] == 0) { turn = u; return; }
@@ -46,26 +52,27 @@ namespace emu {
 
   inline void barrier() { if (tSched) tSched->stop(tId, 1); }
 
-  // run `body` once per thread of every block
+  // run `body` once per thread of every block (the same n OS threads serve all blocks, one block after the other)
   inline void launch(Dim3 grid, Dim3 group, const std::function<void()> &body) {
     gGrid = grid; gGroup = group;
     const int n = (int) (group.x * group.y * group.z);
-    for (unsigned bz = 0; bz < grid.z; ++bz) for (unsigned by = 0; by < grid.y; ++by) for (unsigned bx = 0; bx < grid.x; ++bx) {
-      if (n <= 0) continue;
-      Sched s;
-      s.n = n; s.turn = 0; s.st.assign(n, 0);
-      std::vector<std::thread> ts;
-      for (int t = 0; t < n; ++t) {
-        ts.emplace_back([&, t]() {
-          tSched = &s; tId = t;
+    const long blocks = (long) grid.x * grid.y * grid.z;
+    if (n <= 0 || blocks <= 0) return;
+    Sched s;
+    s.n = n; s.turn = 0; s.st.assign(n, 0); s.blocksLeft = blocks - 1;
+    std::vector<std::thread> ts;
+    for (int t = 0; t < n; ++t) {
+      ts.emplace_back([&, t]() {
+        tSched = &s; tId = t;
+        tThread = {(unsigned) t % group.x, ((unsigned) t / group.x) % group.y, (unsigned) t / (group.x * group.y)};
+        for (unsigned bz = 0; bz < grid.z; ++bz) for (unsigned by = 0; by < grid.y; ++by) for (unsigned bx = 0; bx < grid.x; ++bx) {
           tBlock = {bx, by, bz};
-          tThread = {(unsigned) t % group.x, ((unsigned) t / group.x) % group.y, (unsigned) t / (group.x * group.y)};
           s.waitTurn(t);
           body();
           s.stop(t, 2);
-        });
-      }
-      for (auto &th : ts) th.join();
+        }
+      });
     }
+    for (auto &th : ts) th.join();
   }
 }
